@@ -53,6 +53,16 @@ Theorem C17_priority_injective : forall tp lp comp tp' lp' comp',
 Proof. exact priority_injective. Qed.
 Print Assumptions C17_priority_injective.
 
+(* whole candidates: the candidate with the greater computed type preference has the greater
+   priority, whatever the local preferences and components -- for every configuration *)
+Theorem C17_type_preference_dominates : forall ty nt tcp rp ha off comp ty' nt' tcp' rp' ha' off' comp',
+  In ty cand_types -> In nt net_types -> In tcp tcp_types -> 0 <= off < 65536 -> 1 <= comp <= 256 ->
+  In ty' cand_types -> In nt' net_types -> In tcp' tcp_types -> 0 <= off' < 65536 -> 1 <= comp' <= 256 ->
+  TypePreference ty nt ha off < TypePreference ty' nt' ha' off' ->
+  candidate_priority ty nt tcp rp ha off comp < candidate_priority ty' nt' tcp' rp' ha' off' comp'.
+Proof. exact candidate_priority_type_dominates. Qed.
+Print Assumptions C17_type_preference_dominates.
+
 (* min*(2^32-1) + 2*max + (g > d), no overflow of uint64 *)
 Theorem C17_pair_no_overflow : forall ctl l r,
   0 <= l < 2 ^ 32 -> 0 <= r < 2 ^ 32 ->
